@@ -386,6 +386,10 @@ class Encoder:
         raise EncodeError(f"no integer encoding for {e}")
 
     def _pow(self, base, exp):
+        if isinstance(base, sp.Pow) and not base.exp.is_number:
+            # (b**x)**y = b**(x*y) for b > 0 (real powers with symbolic exponents are only defined there)
+            self.used_axioms.add("law (b**x)**y = b**(x*y)")
+            return self._pow(base.base, sp.simplify(base.exp * exp))
         if isinstance(exp, sp.Integer):
             k = int(exp)
             n, d = self.rat(base)
@@ -412,11 +416,35 @@ class Encoder:
             y = self._sqrtvar(base)
             p = int(exp.p)
             return self._pow_z3(y, p)
-        # symbolic exponent
+        # symbolic exponent: (prod f_i**k_i)**e = prod f_i**(k_i e) for positive factors
+        if isinstance(base, (sp.Mul, sp.Pow)):
+            factors = base.as_powers_dict()
+            if len(factors) > 1 or any(k != 1 for k in factors.values()):
+                self.used_axioms.add("law (a*b)**x = a**x * b**x for positive a, b (every factor is assumed positive)")
+                num, den = None, None
+                for f_, k_ in factors.items():
+                    if f_.is_number and f_ == 1:
+                        continue
+                    if not (f_.is_number and f_ > 0):
+                        fn_, fd_ = self.rat(f_)
+                        self.side.append((fn_ * fd_ if fd_ is not None else fn_) > 0)
+                    n_, d_ = self._pow(f_, sp.simplify(k_ * exp))
+                    num = self._mul(num, n_)
+                    den = self._mul(den, d_)
+                return (num if num is not None else z3.RealVal(1), den)
         k, rest = exp.as_coeff_Add()
         if not (isinstance(k, sp.Integer) or k == 0):
             frac = k - sp.floor(k)
             k, rest = sp.floor(k), rest + frac
+        if isinstance(rest, sp.Add) and len(rest.args) > 1:
+            # b**(x+y) = b**x * b**y : one uninterpreted power per summand of the exponent
+            self.used_axioms.add("law b**x * b**y = b**(x+y)")
+            num, den = self._pow_z3(self._single(base), int(k)) if int(k) != 0 else (None, None)
+            for t_ in rest.args:
+                n_, d_ = self._pow(base, t_)
+                num = self._mul(num, n_)
+                den = self._mul(den, d_)
+            return (num if num is not None else z3.RealVal(1), den)
         b = self._single(base)
         inverted = False
         if rest.could_extract_minus_sign():
